@@ -1,4 +1,5 @@
 import Driver.Util
+import Driver.GErrorIs
 import Driver.Log
 import Driver.BitSet
 import Driver.Set
@@ -14,6 +15,7 @@ Core-only so that it links as a native executable. -/
 open Drv
 
 structure DState where
+  gei : Drv.GEI.St := {}
   lg : Drv.Log.DSt := {}
   set : Drv.Set.St := none
   gsync : Drv.GSync.DSt := {}
@@ -43,6 +45,7 @@ def step (st : DState) (line : String) : DState × String :=
     | none => ({}, "bad-op")
   | "case" :: rest => ({}, joinSp ("case" :: rest))
   | "lg" :: rest => let r := Drv.Log.handle st.lg rest; ({ st with lg := r.1 }, r.2)
+  | "gei" :: rest => let r := Drv.GEI.handle st.gei rest; ({ st with gei := r.1 }, r.2)
   | "echo" :: rest => (st, joinSp rest)
   | _ => (st, "bad-op")
 
